@@ -339,7 +339,30 @@ pub fn token(rng: &mut Rng, ctx: &Ctx, kind: usize) -> String {
                 _ => format!("{}{}{}", csi(rng), param(rng, cols), f),
             }
         }
-        K_SCROLL => match rng.weighted(&[12, 12, 14, 14, 18, 8, 8, 8, 6, 8]) {
+        K_SCROLL => match rng.weighted(&[12, 12, 14, 14, 18, 8, 8, 8, 6, 8, 6]) {
+            10 => {
+                // composite: a region whose bottom margin lies above the last row, the cursor parked BELOW it on the last row,
+                // then more than a row of text: the auto-wrap there neither scrolls nor moves down and must not mark the row as
+                // soft-wrapped (a later resize would glue it to what follows); often ends in the wrap-pending column
+                let mut s = String::new();
+                if rows >= 3 {
+                    let b = rng.range(2, rows - 1);
+                    let t = rng.range(1, b - 1).max(1);
+                    s.push_str(&format!("\x1b[{};{}r", t, b));
+                }
+                if rng.chance(70) {
+                    s.push_str("\x1b[?7h");
+                }
+                s.push_str(&format!("\x1b[{};1H", rows));
+                let n = if rng.chance(50) { cols * rng.range(1, 2) } else { cols + rng.range(1, cols.max(1)) };
+                for i in 0..n {
+                    s.push((b'a' + (i % 26) as u8) as char);
+                }
+                if rng.chance(30) {
+                    s.push_str("\x1b[r");
+                }
+                s
+            }
             9 => {
                 // composite: whole-screen scrolls, then a top-anchored (or inner) partial region and a scroll inside
                 // it, all within one string (so that no end-of-call trim happens in between)
@@ -762,6 +785,43 @@ pub fn stale_ctx(rng: &mut Rng, ctx: &mut Ctx, p: &Profile) -> Vec<Op> {
     ops
 }
 
+/// text wrapped on the last row BELOW a scroll region (the wrap neither scrolls nor moves down; the row must not become
+/// soft-wrapped), then the resizes on which a wrong wrap mark shows: a narrower (divisor) width with the cursor in the
+/// wrap-pending column, or a taller screen, a new line typed on the fresh row and another width change
+pub fn below_region(rng: &mut Rng, ctx: &mut Ctx) -> Vec<Op> {
+    let mut ops = Vec::new();
+    let (cols, rows) = (ctx.cols, ctx.rows);
+    let mut s = String::new();
+    if rows >= 3 {
+        let b = rng.range(2, rows - 1);
+        let t = rng.range(1, b - 1).max(1);
+        s.push_str(&format!("\x1b[{};{}r", t, b));
+    }
+    s.push_str("\x1b[?7h");
+    s.push_str(&format!("\x1b[{};1H", rows));
+    let n = if rng.chance(60) { cols * 2 } else { cols + rng.range(1, cols.max(1)) };
+    for i in 0..n {
+        s.push((b'a' + (i % 26) as u8) as char);
+    }
+    ops.push(Op::Str(s));
+    if rng.chance(50) {
+        // narrower, mostly a divisor of the old width
+        let divs: Vec<usize> = (1..cols).filter(|d| cols % d == 0).collect();
+        let c = if !divs.is_empty() && rng.chance(70) { *rng.pick(&divs) } else { rng.range(1, cols) };
+        ops.push(Op::Resize(c, rows));
+        ctx.cols = c;
+    } else {
+        let r = rows + rng.range(1, 2);
+        ops.push(Op::Resize(cols, r));
+        ctx.rows = r;
+        ops.push(Op::Str(format!("{}XY", rng.pick(&["\r\n", "\x1b[999;1H", "\n\r"]))));
+        let c = if rng.chance(50) { cols + rng.range(1, 3) } else { rng.range(1, cols) };
+        ops.push(Op::Resize(c, r));
+        ctx.cols = c;
+    }
+    ops
+}
+
 /// bounded-exhaustive cases: case index -> (geometry, limit, sequence of DEPTH tokens from a fixed alphabet)
 pub const EXH_TOKENS: [&str; 44] = [
     "a", "bc", "\r", "\n", "\x1bM", "\x1b[A", "\x1b[B", "\x1b[C", "\x1b[D", "\x1b[H", "\x1b[2;2H", "\x1b[999;999H",
@@ -812,6 +872,9 @@ pub fn gen_case(rng: &mut Rng, p: &Profile) -> Case {
             ops.extend(ex);
         } else if p.resize_pct > 0 && rng.chance(if p.name == "save" { 4 } else { 1 }) {
             let ex = stale_ctx(rng, &mut ctx, p);
+            ops.extend(ex);
+        } else if p.resize_pct > 0 && rng.chance(if p.name == "resize" { 3 } else { 1 }) {
+            let ex = below_region(rng, &mut ctx);
             ops.extend(ex);
         } else if rng.chance(p.resize_pct) {
             let (c, r) = match rng.below(6) {
